@@ -62,6 +62,14 @@ Theorem C08_unit_cut_sound : forall (D : Type) (step : D -> chunk -> option (D *
 Proof. exact unit_cut_sound. Qed.
 Print Assumptions C08_unit_cut_sound.
 
+(* LZIP reader: for a file that is a concatenation of members (each at least header + trailer long,
+   starting with the magic bytes, its member_size field holding its length) the backward scan over
+   the trailers returns exactly the member table, in forward order *)
+Theorem C08_lzip_scan_sound : forall ms : list (list Z),
+  ms <> [] -> Forall wf_member ms -> scan_members (concat ms) = Ok (member_table 0 ms).
+Proof. exact lzip_scan_sound. Qed.
+Print Assumptions C08_lzip_scan_sound.
+
 (* Non-vacuity: a reachable state of the repaired reader with two workers in which a result waits
    in the reorder map because an earlier unit is still being processed. *)
 Example C08_out_of_order_example :
